@@ -320,3 +320,21 @@ func discardClassPoint(subj, clp Paths, ct clip.ClipType, fr clip.FillRule, p Pt
 	}
 	return ""
 }
+
+// discardEventsAdds is discardEvents for an arbitrary sequence of AddPaths calls.
+func discardEventsAdds(adds []*addOp, ct clip.ClipType, fr clip.FillRule) []discardTri {
+	var tris []discardTri
+	func() {
+		defer func() { recover() }()
+		c := clip.NewClipper64()
+		rec := clip.NewVerifRecorder(true)
+		c.VerifRecord(rec)
+		for _, a := range adds {
+			c.AddPaths(a.Paths, clip.PathType(a.Type), a.Open)
+		}
+		sol := Paths{}
+		c.Execute(ct, fr, &sol)
+		tris = discardedTriangles(rec)
+	}()
+	return tris
+}
